@@ -132,7 +132,7 @@ pub fn probes(rng: &mut Rng, m: &Model) -> Vec<String> {
     // temporary-id syntax with any letter and any digit string
     let maxh = m.next_ann.max(m.next_res).max(m.next_set).max(m.sets.values().map(|s| s.next_data.max(s.next_key)).max().unwrap_or(0));
     let mut nums: Vec<String> = (0..=maxh + 1).map(|n| n.to_string()).collect();
-    nums.extend(["4294967296", "18446744073709551616", "99999999999999999999999", "+1", "01", "", "-1", "1 ", "1a", "٣"].iter().map(|s| s.to_string()));
+    nums.extend(["65536", "65537", "4294967297", "4294967296", "18446744073709551616", "99999999999999999999999", "+1", "01", "", "-1", "1 ", "1a", "٣"].iter().map(|s| s.to_string()));
     for l in LETTERS.iter() {
         for _ in 0..4 {
             v.push(format!("!{}{}", l, rng.pick(&nums)));
